@@ -294,6 +294,12 @@ def until_connective_false_on_entry(case, faults, msgs):
     """known finding: the watched notification is an a|b / a&b that does not hold when the block is entered"""
     def find(script):
         for op in script:
+            if not isinstance(op, list) or not op:
+                continue                      # (an empty body of a ticker iteration)
+            if not isinstance(op[0], str):
+                if find(op):                  # a list of bodies
+                    return True
+                continue
             if op[0] == 'UNTIL' and is_connective(op[2]):
                 return True
             for a in op[1:]:
